@@ -8,6 +8,7 @@
 #include <amc/vector.hpp>
 
 #include <atomic>
+#include <stdexcept>
 #include <cstdio>
 #include <cstdlib>
 #include <string>
@@ -43,6 +44,15 @@ static void readVec(int k, const V &v, const V &other, int kOther, std::vector<R
     for (size_t i = 0; i < v.size(); ++i) {
       size_t j = (i + static_cast<size_t>(offset)) % v.size();
       out.push_back(Rec{k, seq++, static_cast<int>(j), "index", static_cast<long>(v[static_cast<typename V::size_type>(j)])});
+    }
+    for (size_t i = 0; i <= v.size(); ++i) {  // at(i), i == size() included: the exception path is a const operation too
+      long res;
+      try {
+        res = static_cast<long>(v.at(static_cast<typename V::size_type>(i)));
+      } catch (const std::out_of_range &e) {
+        res = e.what() != nullptr ? -1L : -2L;
+      }
+      out.push_back(Rec{k, seq++, static_cast<int>(i), "at", res});
     }
     out.push_back(Rec{k, seq++, 0, "eqself", v == v ? 1L : 0L});
     out.push_back(Rec{k, seq++, kOther, "eqother", v == other ? 1L : 0L});
@@ -125,6 +135,10 @@ int main(int argc, char **argv) {
       w2.push_back(i);
       w3.insert(i % 37);
       w4.insert(i % 7);
+      try {
+        (void)w1.at(w1.size());
+      } catch (const std::out_of_range &) {
+      }
       if (i % 16 == 15) {
         w1.clear();
         w2.clear();
